@@ -151,6 +151,22 @@ static std::vector<Plan> c07_fixed(int tier) {
         p.ops.push_back(Op("send", 0, 50)); p.ops.push_back(Op("send", 1, 50));
         v.push_back(p);
     } }
+    // TLS 1.2 ECDHE-RSA: per-side signature algorithm lists over rsa_pkcs1_sha256/384/512 (the client's always contains sha256: the test
+    // certificates are sha256WithRSA and the TLS 1.2 list also governs certificate signatures)
+    {
+        static const uint16_t P1[] = { 0x0401, 0x0501, 0x0601 };
+        std::vector<std::vector<uint16_t>> cl = { {}, { 0x0401 }, { 0x0401, 0x0501 }, { 0x0501, 0x0401 }, { 0x0601, 0x0401 }, { 0x0401, 0x0501, 0x0601 } };
+        std::vector<std::vector<uint16_t>> sl; sl.push_back({});
+        for (int st = 0; st < 3; st++) { for (int n = 1; n <= 3; n++) { std::vector<uint16_t> l; for (int i = 0; i < n; i++) { l.push_back(P1[(st + i) % 3]); } sl.push_back(l); } }
+        for (size_t a = 0; a < cl.size(); a++) { for (size_t b = 0; b < sl.size(); b++) { for (int d = 0; d < 2; d++) {
+            Plan p; p.seed = 76000 + (uint64_t) ((a * 16 + b) * 2 + (size_t) d);
+            p.cfg["dtls"] = d; p.cfg["vers_c"] = d ? 16 : 2; p.cfg["vers_s"] = d ? 16 : 2; p.cfg["sid_kind"] = KK_RSA2048; p.cfg["suite"] = TLS_ECDHE_RSA_WITH_AES_128_GCM_SHA256;
+            for (size_t i = 0; i < cl[a].size(); i++) { p.cfg["sig_c" + std::to_string(i)] = cl[a][i]; }
+            for (size_t i = 0; i < sl[b].size(); i++) { p.cfg["sig_s" + std::to_string(i)] = sl[b][i]; }
+            p.ops.push_back(Op("send", 0, 50)); p.ops.push_back(Op("send", 1, 50));
+            v.push_back(p);
+        } } }
+    }
     // per-session suite status sequences on the server: disable X, disable Y, re-enable X (and permutations with a third suite), the client
     // preferring each suite in turn - the suite in force must never be one that is disabled at the end of the sequence
     {
@@ -236,9 +252,14 @@ static RunResult c07_exec(const Plan &p) {
         if (!w.setup(pc)) { res.harness_error = true; res.detail = "setup rc=" + std::to_string(w.setup_rc); }
         else {
             bool rewritten = false; int seen_ch = 0;
+            int ske_sigalg = -1;     // TLS 1.2 ServerKeyExchange (ECDHE): the SignatureAndHashAlgorithm the server signed with, read off the wire
             w.filter = [&](Record &r, std::vector<Bytes> &out) {
                 Bytes raw = r.raw;
                 size_t hh = dtls ? 12 : 4;
+                if (r.type == 22 && r.dir == DIR_S2C && (dtls ? r.epoch == 0 : true) && r.body_len() > hh + 8 && r.raw[r.hdr] == 12 && ske_sigalg < 0) {
+                    const unsigned char *b = r.raw.data() + r.hdr + hh; size_t n = r.body_len() - hh;
+                    if (b[0] == 3 && n > 4 + (size_t) b[3] + 2) { size_t o = 4 + (size_t) b[3]; ske_sigalg = b[o] << 8 | b[o + 1]; }   // named_curve ECParameters + point, then the algorithm pair
+                }
                 bool prot = dtls ? r.epoch > 0 : false;
                 if (rw != RW_NONE && !rewritten && r.type == 22 && !prot && r.body_len() > hh) {
                     const unsigned char *b = r.raw.data() + r.hdr;
@@ -333,6 +354,13 @@ static RunResult c07_exec(const Plan &p) {
                                 if (!sig_enabled(pc.sigalgs_c, sc2)) { res.violate("sigalg_not_mutual", "client_signed_with_one_it_never_enabled", "the client's CertificateVerify uses signature scheme " + std::to_string(sc2) + ", which is not in the client's own list " + sl); }
                                 else if (!sig_enabled(pc.sigalgs_s, sc2)) { res.violate("sigalg_not_mutual", "server_accepted_one_it_never_enabled", "the client's CertificateVerify uses signature scheme " + std::to_string(sc2) + ", which the server did not enable " + sl); }
                             }
+                        }
+                        if (!res.violation && nvc == v_tls_1_2 && ske_sigalg >= 0) {
+                            auto sig_enabled12 = [](const std::vector<uint16_t> &l, int a) { if (l.empty()) { return true; } for (auto x : l) { if (x == a) { return true; } } return false; };
+                            std::string sl = "c["; for (auto x : pc.sigalgs_c) { sl += std::to_string(x) + " "; } sl += "] s["; for (auto x : pc.sigalgs_s) { sl += std::to_string(x) + " "; } sl += "]";
+                            res.count("sigalg12.server_key_exchange." + std::to_string(ske_sigalg));
+                            if (!sig_enabled12(pc.sigalgs_c, ske_sigalg)) { res.violate("sigalg_not_mutual", "tls1.2_client_accepted_one_it_never_offered", "the ServerKeyExchange is signed with algorithm " + std::to_string(ske_sigalg) + ", which the client did not offer " + sl); }
+                            else if (!sig_enabled12(pc.sigalgs_s, ske_sigalg)) { res.violate("sigalg_not_mutual", "tls1.2_server_signed_with_one_it_never_enabled", "the ServerKeyExchange is signed with algorithm " + std::to_string(ske_sigalg) + ", which is not in the server's own list " + sl); }
                         }
                         if (!res.violation && p.get("fallback") && top_bit(vs) > top_bit(vc_eff)) {
                             res.violate("fallback_accepted", ctx, "the ClientHello carried TLS_FALLBACK_SCSV, the server supports a higher version than the client offered, and the handshake completed");
